@@ -12,7 +12,8 @@
 //@ harness k7_prepended_write tier=quick kind=bounded bound=writes-of<=3-bytes fn=src/tls.rs::PrependedReader::{write,flush}
 //@ harness k7_switchable_plain tier=quick kind=bounded bound=buffers-of<=3-bytes fn=src/tls.rs::SwitchableConn::{new,read,write,flush}(Plain)
 //@ clause C18.prepend.order  reads deliver prepended ++ inner in order, each byte exactly once, whatever the read sizes
-//@ clause C18.prepend.write  write/flush reach the inner stream only and unchanged
+//@ clause C18.prepend.write  write reaches the inner stream only and unchanged
+//@ clause C12.prepend.flush  flush on the upgraded connection flushes the inner stream (replies do not stay buffered under TLS)
 //@ clause C18.plain.route    before the upgrade SwitchableConn forwards read/write/flush to the plain stream
 //@ clause C18.tls.nopanic    no panic
 #![allow(unused_imports)]
@@ -24,6 +25,14 @@ pub struct MockRW {
     pub data: [u8; 3],
     pub len: usize,
     pub pos: usize,
+    pub wrote: [u8; 4],
+    pub nwrote: usize,
+    pub flushes: usize,
+    /// where a harness that gives the stream away can still see what reached it
+    pub seen: *mut Seen,
+}
+#[derive(Clone, Copy)]
+pub struct Seen {
     pub wrote: [u8; 4],
     pub nwrote: usize,
     pub flushes: usize,
@@ -52,10 +61,21 @@ impl Write for MockRW {
             self.nwrote += 1;
             i += 1;
         }
+        if !self.seen.is_null() {
+            unsafe {
+                (*self.seen).wrote = self.wrote;
+                (*self.seen).nwrote = self.nwrote;
+            }
+        }
         Ok(i)
     }
     fn flush(&mut self) -> io::Result<()> {
         self.flushes += 1;
+        if !self.seen.is_null() {
+            unsafe {
+                (*self.seen).flushes = self.flushes;
+            }
+        }
         Ok(())
     }
 }
@@ -63,7 +83,7 @@ fn mock() -> MockRW {
     let data: [u8; 3] = vk::any();
     let len: usize = vk::any();
     vk::assume(len <= 3);
-    MockRW { data, len, pos: 0, wrote: [0; 4], nwrote: 0, flushes: 0 }
+    MockRW { data, len, pos: 0, wrote: [0; 4], nwrote: 0, flushes: 0, seen: std::ptr::null_mut() }
 }
 
 #[cfg(kani)]
@@ -109,13 +129,22 @@ pub fn k7_prepended_read() {
 #[kani::unwind(8)]
 pub fn k7_prepended_write() {
     let pre: [u8; 2] = vk::any();
-    let inner = mock();
+    let mut seen = Seen { wrote: [0; 4], nwrote: 0, flushes: 0 };
+    let mut inner = mock();
+    inner.seen = &mut seen as *mut Seen;
     let mut r = PrependedReader::new(&pre[..], inner);
     let w: [u8; 3] = vk::any();
     let wl: usize = vk::any();
     vk::assume(wl <= 3);
     let n = r.write(&w[..wl]).unwrap();
+    let before_flush = seen.flushes;
     r.flush().unwrap();
+    // the bytes and the flush reached the SOCKET (not the cursor over the prepended bytes)
+    vk_assert!(seen.nwrote == wl, "[C18.prepend.write] the written bytes did not reach the inner stream");
+    let j: usize = vk::any();
+    vk::assume(j < wl);
+    vk_assert!(seen.wrote[j] == w[j], "[C18.prepend.write] the inner stream received different bytes");
+    vk_assert!(before_flush == 0 && seen.flushes == 1, "[C12.prepend.flush] flush did not reach the inner stream exactly once");
     // reading afterwards still starts with the prepended bytes: writes did not disturb the read side
     let mut b = [0u8; 1];
     let got = r.read(&mut b).unwrap();
